@@ -256,7 +256,7 @@ func c11CLI(c *fw.Ctx) fw.Outcome {
 	in := filepath.Join(c.TmpDir(), "in.srt")
 	out := filepath.Join(c.TmpDir(), "out.srt")
 	os.WriteFile(in, []byte(simpleSRT(cs)), 0o644)
-	os.Remove(out)
+	out = outPath(r, in, out)
 	key := hashCues(cs, 0xc11)
 	msg, err := cli("unfragment", "-i", in, "-o", out)
 	if err != nil {
